@@ -8,7 +8,7 @@ from rv.checks.c07 import CNAME, gen_secret
 LEVEL = 'exploration'
 SHARDS = {'quick': 8, 'thorough': 16}
 TIMEOUT = {'quick': 900, 'thorough': 7200}
-PASSPHRASES = ['x', 'correct horse battery staple', 'pässwörd-€', 'p' * 1000, b'\x00\x01bytes', ' ', '0']
+PASSPHRASES = ['x', 'correct horse battery staple', 'pässwörd-€', 'p' * 1000, b'\x00\x01bytes', ' ', '0', 'cafe', '1234', '0xab', 'deadbeef', 'ABCDEF']
 
 
 def judge_key(ctx, rng, curve, secret, n_pass=1):
@@ -105,6 +105,18 @@ def judge_mnemonic(ctx, words, why):
     if got != want:
         ctx.violation('C08|mnemonic-%s|%s|%d-words' % ('accepted-with-bad-checksum' if got else 'rejected-with-good-checksum', why, len(words)),
                       s if got else '%s: %r' % (s, err), {'mnemonic': words, 'why': why})
+    elif why in ('swapped-words', 'substituted-word', 'from-entropy') and len(words) in (12, 15, 18, 21, 24):
+        # the key constructor validates by default, whatever form the mnemonic is given in (string or list of words)
+        from pytezos.crypto.key import Key
+        for form, arg in (('list', list(words)), ('string', s)):
+            ctx.count('from_mnemonic_validation_calls')
+            try:
+                Key.from_mnemonic(arg)
+                ok = True
+            except Exception:
+                ok = False
+            if ok != want:
+                ctx.violation('C08|from_mnemonic-%s|%s-form' % ('accepts-bad-checksum' if ok else 'rejects-good-checksum', form), s, {'mnemonic': words, 'why': why})
     return want
 
 
